@@ -354,7 +354,6 @@ def checkAttrType (a : Attr) : List EK :=
   | some .boolConst =>
     (match a.val with
      | .bool (some _) _ => []
-     | .req (.bool _) => []
      | _ => [.attrType a.name])
   | some .bool =>
     (match a.val with
@@ -372,8 +371,14 @@ def checkAttrType (a : Attr) : List EK :=
   | some .backEnds =>
     (match a.val with
      | .str s => if validBackEnds s then [] else [.attrBackEnds]
-     | _ => [.crash])                        -- `attr.value.string_constant.text` on None
+     | _ => [.attrType a.name])              -- see note below
   | some .unknownChecker => [.crash]
+
+/- Note on `checkAttrType`: for a value of the wrong *kind* the Python validators
+`_is_constant_boolean` (non-boolean expression) and `_valid_back_ends` (non-string) currently
+raise AttributeError (open findings of C14, patch in fixes/); the model returns the type error
+the validators are meant to return — the behaviour with the patch applied.  The harness routes
+the two crashes to the known findings and does not compare the model on them. -/
 
 /-- `_check_attributes` with `back_end=None`: qualified attributes are skipped; `seen` is
 `already_seen_attributes`. -/
